@@ -12,7 +12,7 @@ import (
 // and optionally closes right after the reply.
 func vrtHarness_C02_reuse() {
 	closeAfter := vrtChoice(2) == 1
-	conn := &vrtConn{stream: true, syncWrite: vrtChoice(2) == 1}
+	conn := &vrtConn{stream: true, syncWrite: vrtChoice(2) == 1, eofWithData: closeAfter && vrtChoice(2) == 1}
 	dials := 0
 	t := NewReuseConnTransport(ReuseConnOpts{DialContext: func(ctx context.Context) (NetConn, error) {
 		dials++
